@@ -334,24 +334,36 @@ def check_annotate_paths(repo: Repo, rep: Report, tier="quick"):
     rep.stats["zero_symbol"] = zero_used
     rep.stats["exhaustive"] = True
     rep.sample(dict(engine="O", function=construct, generic_paths=2 if zero_used else 3, order_types=stats["order_types"], runs=stats["runs"]))
-    # path_length / path_duration themselves, interpreted on a generic path
-    mot1 = MultiOT({"L": OrderType([["L1"]], [], 1), "D": OrderType([["D1"]], [], 1), "R": OrderType([["R1"]], [], 1),
-                    "S": OrderType([["S1"]], [], 1)}, R=1)
-    for fname, want in (("path_length", "L1"), ("path_duration", "D1")):
+    # path_length / path_duration themselves: interpreted on concrete hop sequences (list and tuple form, one to three hops,
+    # one of them a self-loop hop, first hop not at the earliest possible instant)
+    ot1 = OrderType([["t"]], [], 12)
+    hop = lambda a, b, k: TupleV([NodeV(a), NodeV(b), Int("t", k)])
+    shapes = [("one hop", [("A", "B", 1)]), ("two hops", [("A", "B", 1), ("B", "C", 4)]),
+              ("three hops, one of them a self-loop", [("A", "B", 1), ("B", "B", 2), ("B", "C", 3)]),
+              ("three hops, returning to the source", [("A", "B", 2), ("B", "A", 3), ("A", "C", 7)])]
+    for fname in ("path_length", "path_duration"):
         f = repo.get(PATHS, fname)
-        w = PathWorld({k: v for k, v in functions.items() if k not in ("path_length", "path_duration")}, {})
-        ip = Interp(w, mot1, max_depth=3)
-        try:
-            v = ip.call_function(f, {f.args.args[0].arg: PathV(1)})
-            ok = isinstance(v, Int) and v.term() == (want, 0)
-            got = repr(v)
-        except AbstractRaise as r:
-            ok, got = False, "raises %s" % r.exc
-        rep.ob("O.%s" % fname, repo.construct(PATHS, fname), "returns %s of a generic path" % ("the hop count" if fname == "path_length" else "last time - first time"), ok=ok)
-        if not ok:
-            rep.finding("O.%s" % fname, repo.construct(PATHS, fname), "wrong-measure",
-                        "%s of a generic path evaluates to %s, expected %s" % (fname, got, "its hop count" if fname == "path_length" else
-                                                                                "time of its last hop - time of its first hop"), line=f.lineno)
+        c = repo.construct(PATHS, fname)
+        bad = None
+        for label, hops in shapes:
+            for form in (ListObj, TupleV):
+                want = len(hops) if fname == "path_length" else hops[-1][2] - hops[0][2]
+                w = PathWorld({k: v for k, v in functions.items()}, {})
+                ip = Interp(w, ot1, max_depth=4)
+                wit = "%s as a %s: %s" % (label, "list" if form is ListObj else "tuple", ["(%s,%s,t%+d)" % h for h in hops])
+                try:
+                    v = ip.call_function(f, {f.args.args[0].arg: form([hop(*h) for h in hops])})
+                    got = v.v if isinstance(v, Const) else repr(v)
+                except AbstractRaise as r:
+                    got = "raises %s" % r.exc
+                if got != want or isinstance(got, bool):
+                    bad = bad or (got, want, wit)
+        rep.ob("O.%s" % fname, c, "returns %s of %d concrete hop sequences" % (
+            "the hop count" if fname == "path_length" else "last time - first time", 2 * len(shapes)), ok=bad is None)
+        if bad:
+            rep.finding("O.%s" % fname, c, "wrong-measure", "%s evaluates to %s, expected %s (%s)" % (
+                fname, bad[0], bad[1], "its hop count" if fname == "path_length" else "time of its last hop - time of its first hop"),
+                witness=bad[2], line=f.lineno)
     return stats["order_types"]
 
 
